@@ -26,7 +26,9 @@ def monitor(obs_path, hcfg, workdir, spec="ManagedObs.tla", timeout=1800):
             f.write("SPECIFICATION Spec\nPOSTCONDITION Consumed\nCHECK_DEADLOCK FALSE\n")
     env = dict(os.environ)
     env["OBS"] = os.path.abspath(obs_path)
-    env["JAVA_TOOL_OPTIONS"] = "-Xss1g"
+    jtmp = os.path.join(workdir, "jtmp")
+    os.makedirs(jtmp, exist_ok=True)
+    env["JAVA_TOOL_OPTIONS"] = "-Xss1g -Djava.io.tmpdir=" + jtmp
     n = sum(1 for _ in open(obs_path))
     if n == 0:
         return {"events": 0, "viol": {}, "tlc_s": 0.0, "consumed": True}
